@@ -6,16 +6,16 @@ def g(w, **kw): return lambda rng: hist.gen_history(rng, w, **dict(kw, exotic=kw
 # C03: edits everywhere
 C03 = g(dict(add_dim=5, del_dim=4, add_attr=14, del_attr=12, rename=8, disable=3, upd=14, rekey=2, prune=1, keygen=12, refresh=8, encaps=14, decaps=16, recaps=1, rt=2, mpk=1), exotic=True)
 # C04: rotation; no prune / deletions
-C04 = g(dict(add_dim=1, del_dim=0, add_attr=3, del_attr=0, rename=1, disable=0, upd=4, rekey=18, prune=0, keygen=10, refresh=16, encaps=16, decaps=20, recaps=1, rt=2, mpk=2))
+C04 = g(dict(add_dim=1, del_dim=0, add_attr=3, del_attr=0, rename=1, disable=2, upd=5, rekey=18, prune=0, keygen=10, refresh=16, encaps=16, decaps=20, recaps=1, rt=2, mpk=2))
 # C05: revocation
-C05 = g(dict(add_dim=1, del_dim=3, add_attr=3, del_attr=8, rename=1, disable=0, upd=8, rekey=14, prune=12, keygen=8, refresh=16, encaps=12, decaps=18, recaps=1, rt=2, mpk=1))
+C05 = g(dict(add_dim=1, del_dim=3, add_attr=3, del_attr=8, rename=1, disable=3, upd=8, rekey=14, prune=12, keygen=8, refresh=16, encaps=12, decaps=18, recaps=1, rt=2, mpk=1))
 # C06: disabling
 C06 = g(dict(snap=0, restore=0, add_dim=1, del_dim=1, add_attr=3, del_attr=1, rename=4, disable=14, upd=12, rekey=10, prune=5, keygen=6, refresh=8, encaps=20, decaps=10, recaps=2, rt=5, mpk=5))
 # C09: everything, with invalid arguments
 C09 = g(dict(rfbad=6, snap=2, restore=2, add_dim=6, del_dim=4, add_attr=10, del_attr=7, rename=6, disable=5, upd=10, rekey=9, prune=5, keygen=10, refresh=10, encaps=12, decaps=6, recaps=4, rt=2, mpk=2), exotic=True)
 C10 = g(dict(hint=5, rfbad=6, snap=4, restore=5, add_dim=4, del_dim=3, add_attr=10, del_attr=8, rename=3, disable=10, upd=14, rekey=14, prune=4, keygen=8, refresh=12, encaps=4, decaps=2, recaps=1, rt=1, mpk=1))
 C11 = g(dict(snap=0, restore=0, add_dim=3, del_dim=1, add_attr=10, del_attr=3, rename=2, disable=2, upd=10, rekey=10, prune=3, keygen=10, refresh=10, encaps=16, decaps=8, recaps=3, rt=6, mpk=2))
-C13 = g(dict(snap=2, restore=2, add_dim=3, del_dim=2, add_attr=8, del_attr=4, rename=2, disable=4, upd=10, rekey=8, prune=3, keygen=10, refresh=8, encaps=10, decaps=10, recaps=3, rt=30, mpk=3), multibyte=True)
+C13 = g(dict(snap=2, restore=2, add_dim=3, del_dim=2, add_attr=8, del_attr=4, rename=2, disable=4, upd=10, rekey=8, prune=3, keygen=10, refresh=8, encaps=10, decaps=10, recaps=3, rt=30, mpk=3), multibyte=True, exotic=True)
 # C16 (history part): rotations interleaved with disabling, pruning and updates; no backup/restore (a restored master key republishes by design)
 C16H = g(dict(snap=0, restore=0, add_dim=1, del_dim=1, add_attr=3, del_attr=2, rename=1, disable=8, upd=12, rekey=22, prune=6, keygen=3, refresh=3, encaps=4, decaps=2, recaps=1, rt=4, mpk=6))
 C17 = g(dict(rfbad=8, snap=3, restore=3, add_dim=1, del_dim=1, add_attr=3, del_attr=3, rename=1, disable=1, upd=6, rekey=6, prune=3, keygen=20, refresh=20, encaps=3, decaps=3, recaps=0, rt=12, mpk=1))
@@ -137,6 +137,7 @@ def rotation_scenario(rng, disable=False):
     out.append(f"RF 0 {rng.choice('01')}"); out.append(f"RF 1 {rng.choice('01')}")
     out.append(f'RT MPK {nmpk - 1}')
     out.append(f'EN {nmpk - 1} {x("D::" + names[1])}'); nenc += 1
+    for a in names: out.append(f'EN {nmpk - 1} {x("D::" + a)}'); nenc += 1      # also for a disabled one: must be refused
     out.append(f'RT ENC {nenc - 1}'); out.append('RT USK 1')
     out.append(f"RF 0 {rng.choice('01')}")
     for k in range(2):
@@ -145,7 +146,8 @@ def rotation_scenario(rng, disable=False):
 
 
 def with_rotation(gen, share=0.1, disable=False):
-    return lambda rng: rotation_scenario(rng, disable) if rng.random() < share else gen(rng)
+    """disable: True / False / None (= sometimes)"""
+    return lambda rng: rotation_scenario(rng, (rng.random() < 0.4) if disable is None else disable) if rng.random() < share else gen(rng)
 
 
 def shrink_scenario(rng):
@@ -236,4 +238,25 @@ def refused_edit_scenario(rng):
     out.append('UPD'); nmpk += 1
     out += [f"RF {k} {rng.choice('01')}" for k in range(min(nk, 5))]
     out += [f'DE {k} {e}' for k in range(min(nk, 5)) for e in range(ne)][:80]
+    return out
+
+
+def mixed_recaps_scenario(rng):
+    """C11 directed: an encapsulation over classic AND hybridized targets (hence classic), then the classic targets go away
+    (deleted or disabled, master key updated); the re-encapsulation addresses hybridized rights only and must be
+    hybridized; and the other way round."""
+    x = hist.x
+    out = ['SETUP', f"{rng.choice(['AA', 'AH'])} {x('D')}"]; nmpk = 1
+    cl = rng.sample(['a', 'b'], rng.randint(1, 2)); hy = rng.sample(['h', 'k'], rng.randint(1, 2))
+    names = cl + hy; rng.shuffle(names)
+    for a in names: out.append(f"AT {x('D')} {x(a)} {'1' if a in hy else '0'} -")
+    out.append('UPD'); nmpk += 1
+    out.append(f'EN {nmpk - 1} {x(" || ".join("D::" + a for a in names))}')
+    out.append(f'EN {nmpk - 1} {x(" || ".join("D::" + a for a in hy))}')
+    for a in hy[:1]: out.append(f'KG {x("D::" + a)}')
+    if rng.random() < 0.4: out.append(f'RK {x("D::" + hy[0])}'); nmpk += 1
+    gone = cl if rng.random() < 0.7 else hy
+    for a in gone: out.append(f"{rng.choice(['DT', 'DS'])} {x('D')} {x(a)}")
+    out.append('UPD'); nmpk += 1
+    out += [f'RC {nmpk - 1} 0', f'RC {nmpk - 1} 1', 'RF 0 1', 'DE 0 0', 'DE 0 2', 'DE 0 3']
     return out
